@@ -62,7 +62,8 @@ def _defs(fn, name):
         elif isinstance(n, ast.AnnAssign) and isinstance(n.target, ast.Name) and n.target.id == name and n.value is not None:
             out.append(n)
         elif isinstance(n, ast.AugAssign) and isinstance(n.target, ast.Name) and n.target.id == name:
-            other = True
+            if not (isinstance(n.op, ast.Add) and isinstance(n.value, ast.List) and len(n.value.elts) == 1):
+                other = True          # `xs += [e]` is an append (handled with the appends), anything else is not understood
         elif isinstance(n, (ast.For, ast.comprehension)) and any(isinstance(x, ast.Name) and x.id == name for x in ast.walk(n.target)):
             other = True
         elif isinstance(n, ast.NamedExpr) and n.target.id == name:
@@ -135,6 +136,8 @@ def provenance(ctx: Ctx, expr) -> Optional[Prov]:
         empties = [d for d in defs if isinstance(d.value, ast.List) and not d.value.elts or
                    (isinstance(d.value, ast.Call) and dotted(d.value.func) == "list" and not d.value.args)]
         appends = [m_ for m_ in muts if m_.func.attr == "append"]
+        appends += [n for n in _walk_fn(fn) if isinstance(n, ast.AugAssign) and isinstance(n.target, ast.Name) and n.target.id == name
+                    and isinstance(n.op, ast.Add) and isinstance(n.value, ast.List) and len(n.value.elts) == 1]
         if appends:
             if len(defs) != 1 or len(empties) != 1:
                 return None
@@ -158,7 +161,10 @@ def provenance(ctx: Ctx, expr) -> Optional[Prov]:
             p = nxt(seq)
             if p is None:
                 return None
-            elem = appends[0].args[0] if len(appends) == 1 and len(appends[0].args) == 1 else None
+            a0 = appends[0]
+            elem = None
+            if len(appends) == 1:
+                elem = a0.value.elts[0] if isinstance(a0, ast.AugAssign) else (a0.args[0] if len(a0.args) == 1 else None)
             return Prov(p.root, p.weaker(kind), p.reordered, p.why, lp, fn, elem, idx, start, name)
         if len(defs) != 1:
             return None
